@@ -467,6 +467,50 @@ func checkC06(w *Worker) {
 				map[string]interface{}{"cmd": c.shell(), "observed": r.String(), "expected": ref.String()})
 		}
 	})
+	// keyword bounds across the turn of the year under formats that do not carry the full year: "yesterday" on 1 January is
+	// the last day of the year BEFORE the one the headings are read in - whatever the format can or cannot write down,
+	// the bound is today minus so many days
+	w.Explore("keywords-across-the-turn-of-the-year-in-lossy-formats", ExploreOpts{ShardDepth: 4}, func(x *Exec) {
+		format := []string{"01/02", "Jan 2", "06.01.02", "2006/01/02"}[x.Choose(4, "config:date-format")]
+		ci := x.Choose(len(c06Cmds), "input:command")
+		kw := x.Choose(4, "input:keyword")
+		side := x.Choose(2, "input:side")
+		ti := x.Choose(3, "input:today")
+		year := 2021
+		if format == "06.01.02" {
+			year = 1969 // the pivot of two-digit years
+		}
+		todayT := time.Date(year, 1, []int{1, 3, 15}[ti], 0, 0, 0, 0, time.UTC)
+		back := []int{0, 1, 7, 30}[kw]
+		keyword := []string{"today", "yesterday", "last7", "last30"}[kw]
+		today, _ := time.Parse(format, todayT.Format(format))
+		bound := today.AddDate(0, 0, -back)
+		var all, sel absLog
+		for i, off := range []int{-40, -31, -8, -7, -2, -1, 0, 1, 5} {
+			d := todayT.AddDate(0, 0, off)
+			day := absDay{Date: d.Format(format), Entries: []absIng{{fmt.Sprintf("m%d", i), float64(i + 1)}, {"r", 1}}}
+			all = append(all, day)
+			// as the heading reads under the format (a year-less heading lies in the year the format gives it)
+			read, err := time.Parse(format, day.Date)
+			if err != nil {
+				hfail("heading %q under %q: %v", day.Date, format, err)
+			}
+			if (side == 0 && !read.Before(bound)) || (side == 1 && !read.After(bound)) {
+				sel = append(sel, day)
+			}
+		}
+		args := []string{"--no-color", "--date-format", format, "--today", todayT.Format(format)}
+		cmd := c06Cmds[ci]
+		c := appCase{Args: append(append(append([]string{}, args...), []string{"-b", "-e"}[side], keyword), cmd.Args...), Files: map[string]string{"food.yaml": bookText, "log.yaml": renderLog(all)}}
+		r := runApp(c)
+		ref := runApp(appCase{Args: append(append([]string{}, args...), cmd.Args...), Files: map[string]string{"food.yaml": bookText, "log.yaml": renderLog(sel)}})
+		x.Obs(r.Key())
+		x.Case(fmt.Sprint(format, ci, keyword, side, ti), len(sel) > 0 && len(sel) < len(all))
+		if c06Differs(r, ref) {
+			x.Violate("C06|"+cmd.Name+"|keyword-across-the-year|differs-from-restricted-log", fmt.Sprintf("`%s`\nprinted:\n%s\nwith the other days deleted and no period the same command prints:\n%s", c.shell(), r.String(), ref.String()),
+				map[string]interface{}{"cmd": c.shell(), "observed": r.String(), "expected": ref.String()})
+		}
+	})
 	smallBounds := []string{"", "2021/01/24", "2021/01/25", "2021/01/26", "today", "yesterday", "last7"}
 	w.Explore("all-period-aware-command-shapes", ExploreOpts{ShardDepth: 4}, func(x *Exec) {
 		si := x.Choose(len(shapes), "input:command-shape")
